@@ -18,3 +18,14 @@ Fixpoint spec_nest (rho : env) (hs : list header) : option (list (list Z)) :=
       | _, _ => None
       end
   end.
+
+(* A translator may refuse a loop at translation time when its update moves away from the bound, or
+   when all its operands are literals and it has no iterations ("OKL for loop range is empty or
+   infinite").  Every other loop of the OKL header grammar has to be translated. *)
+Definition spec_may_reject (h : header) : bool :=
+  negb (direction_ok h) ||
+  match vars (h_init h) ++ vars (h_bound h) ++
+        match update_value (h_upd h) with Some s => vars s | None => [] end with
+  | [] => match seq_values (fun _ => 0) h with Some [] => true | Some _ => false | None => true end
+  | _ => false
+  end.
